@@ -76,7 +76,7 @@ def main(argv=None):
         print("CHECKER-ERROR could not load contracts: %r" % (e,))
         return 3
     tier = a.tier
-    timeout_ms = int(os.environ.get("PYVC_TIMEOUT_MS", "8000" if tier == "quick" else "60000"))
+    timeout_ms = int(os.environ.get("PYVC_TIMEOUT_MS", "15000" if tier == "quick" else "90000"))
     names = [n for n, i in harness.TASKS.items() if i["prop"] == a.prop and ((tier == "thorough" and i["tier"] in ("quick", "thorough")) or i["tier"] == "quick")]
     if a.only:
         names = [n for n in names if a.only in n]
